@@ -301,6 +301,10 @@ structure MLaws (I : MOps) where
   remove_pos : ∀ m L id, Repr m L → (I.remove id m).2.isSome = true → 0 < I.len m
   repr_batch : ∀ m L ids, Repr m L →
     Repr (I.batchRemove ids m) (L.filter (fun r => !ids.contains r.id))
+  /-- `cache` compiles regexes only: the state represents the same routes afterwards … -/
+  repr_cache : ∀ m L limit level, Repr m L → Repr (I.cache limit level m).1 L
+  /-- … and the budget it returns is at most the budget it received -/
+  cache_le : ∀ m limit level, (I.cache limit level m).2 ≤ limit
   mem_match : ∀ m L q r, Repr m L → UIds L → (r ∈ I.matchReq m q ↔ r ∈ L ∧ sat L r q = true)
   nodup_match : ∀ m L q, Repr m L → UIds L → (I.matchReq m q).Nodup
   mem_trace : ∀ m L q r, Repr m L → UIds L → (r ∈ rawRoutesOfList (I.trace m q) ↔ r ∈ I.matchReq m q)
